@@ -331,6 +331,8 @@ func run(ci any, r *mon.Rec) {
 				j.schedule([]xport.ReadStep{{N: k}, {Err: "eof-wrapped"}, {N: L - k}}, mon.Mix(83, uint64(k)))
 				j.schedule([]xport.ReadStep{{N: k, Err: "eof"}, {N: L - k}}, mon.Mix(84, uint64(k)))
 				j.schedule([]xport.ReadStep{{N: k, Err: "deadline-wrapped"}, {N: L - k, Err: "eof-wrapped"}}, mon.Mix(85, uint64(k)))
+				// a port whose read timeout shows as (0, nil)
+				j.schedule([]xport.ReadStep{{}, {N: k}, {}, {}, {N: L - k}}, mon.Mix(87, uint64(k)))
 			}
 		}
 		j.schedule([]xport.ReadStep{{N: L, Err: "eof"}}, 86)
